@@ -80,7 +80,7 @@ func c10Run(c c10Case) *eng.Fail {
 func init() {
 	allOps := []string{"add", "lsh", "rsh", "mul", "div", "nand", "less"}
 	checks["C10"] = eng.Check{
-		Rule: "ConstFold of every operator (+ Less) on constants: ALL 65536 operand pairs at widths (1,1,1); all byte-pattern operands {00,01,7f,80,ff}^w for operand/operation widths in {1,2,3}^3; boundary alphabets and every shift amount 0..8w+9, 2^64, 2^64+1 at widths {4,8,9,16,17,32,255} with narrower/equal/wider operands. Non-trivial = case whose exact result is neither 0 nor equal to the first operand.",
+		Rule:        "ConstFold of every operator (+ Less) on constants: ALL 65536 operand pairs at widths (1,1,1); all byte-pattern operands {00,01,7f,80,ff}^w for operand/operation widths in {1,2,3}^3; boundary alphabets and every shift amount 0..8w+9, 2^64, 2^64+1 at widths {4,8,9,16,17,32,255} with narrower/equal/wider operands. Non-trivial = case whose exact result is neither 0 nor equal to the first operand.",
 		Assumptions: []string{"oracle: math/big arithmetic following the documented width rules of pkg/expr"},
 		Run: func(r *eng.Run) {
 			do := func(c c10Case) {
